@@ -164,6 +164,9 @@ def inv(m) -> bool:
     return True
 
 
+LOOSE = os.environ.get("LOOSE", "0") == "1"     # states reachable with per-node restores / clear_state: a node may be outdated while its dependants are up to date
+
+
 def load(vals, stale, flags, auto):
     """construct an ARBITRARY state satisfying the invariant: input values free; a caching node is either
     outdated (then it holds an arbitrary stale value) or up to date (then it holds f(current inputs));
@@ -174,14 +177,17 @@ def load(vals, stale, flags, auto):
         v[n] = x
     eff = {}
     k = 0
+    tv = dict(v)                    # from-scratch values (differ from the stored ones only in the loose mode)
     for n in TOPO:                  # topological order
         if n in TRANS:
             v[n] = F[n](v)
+            tv[n] = F[n](tv)
             continue
         i = CACHING.index(n)
-        out = bool(flags[i]) or any(eff[p] for p in UPC[n])
+        out = bool(flags[i]) or (not LOOSE and any(eff[p] for p in UPC[n]))
         eff[n] = out
-        val = stale[i] if out else F[n](v)
+        tv[n] = F[n](tv)
+        val = stale[i] if out else (tv[n] if LOOSE else F[n](v))
         M.nodes[n]._value = val
         M.nodes[n]._outdated = out
         v[n] = val
@@ -221,6 +227,13 @@ def values_match_scratch(names):
 
 def inv_sym(m):
     """the invariant as one symbolic conjunction over the (concrete per path) flags"""
+    if LOOSE:                      # value-based invariant: whatever reports up to date holds the from-scratch value
+        ref = scratch(m)
+        ok = True
+        for n in CACHING:
+            if not m.nodes[n].outdated:
+                ok = ok & (m.nodes[n].value == ref[n])
+        return ok
     v = env_of(m)
     ok = True
     for n in CACHING:
